@@ -25,6 +25,7 @@ mod c12;
 mod c13;
 mod c14;
 mod c11expr;
+mod c11;
 mod c15;
 mod c16;
 mod c17;
@@ -56,7 +57,7 @@ fn main() {
         "C08" => c08::run(&mut out, thorough, seed),
         "C09" => c09::run(&mut out, thorough, seed),
         "C10" => c10::run(&mut out, thorough, seed),
-        "C11" => c11expr::run(&mut out, thorough, seed),
+        "C11" => c11::run(&mut out, thorough, seed),
         "C12" => c12::run(&mut out, thorough, seed),
         "C13" => c13::run(&mut out, thorough, seed),
         "C14" => c14::run(&mut out, thorough, seed),
